@@ -39,10 +39,10 @@ Print Assumptions C14_refines_rename.
     absolute prefix, an opened file reports the path relative to the prefix as
     root, a file info reports "/" for the root and the base name otherwise. *)
 Theorem C14_file_name :
-  forall pfx a' rest, cleaned pfx -> is_abs pfx = true -> cleaned a' ->
+  forall pfx a' rest, cleaned pfx -> is_abs pfx = true -> cleaned a' -> is_abs a' = true ->
   comps a' = comps pfx ++ rest ->
   prefixfs_file_name pfx a' = render true rest.
-Proof. exact prefixfs_file_name_spec. Qed.
+Proof. exact prefixfs_file_name_spec_abs. Qed.
 Print Assumptions C14_file_name.
 
 Theorem C14_info_name :
